@@ -549,6 +549,10 @@ class VarsManager(object):
             same_real([name + "i" for name in new_name_list])
         else:
             same_real(new_name_list)
+            # members of the merged groups follow the new head as well
+            for name in tmp_list:
+                if name in self.variables:
+                    self.variables[name] = self.variables[new_name_list[0]]
         self.same_list.append(name_list)
 
     def get(self, name, val_in_fit=True):
